@@ -3734,6 +3734,11 @@ request_submit(struct request *const req) {
 	if (req->ns) {
 		/* if it has a nameserver assigned then this is going */
 		/* straight into the inflight queue */
+		/* The id was picked when the request was built; a request
+		 * finished in between may have pumped a waiting request into
+		 * the inflight table under the same id. */
+		if (request_find_from_trans_id(base, req->trans_id))
+			request_trans_id_set(req, transaction_id_pick(base));
 		evdns_request_insert(req, &REQ_HEAD(base, req->trans_id));
 
 		base->global_requests_inflight++;
